@@ -513,7 +513,7 @@ func props() []rp.Prop {
 		}
 	}
 	return []rp.Prop{
-		rp.P[history]{Name: "listener", Checks: ev.Pick(400, 12000) / ev.Shards(), Gen: genHistory, Check: check},
+		rp.P[history]{Name: "listener", Checks: ev.Pick(400, 60000) / ev.Shards(), Gen: genHistory, Check: check},
 		rp.P[slowCase]{Name: "slow-consumer", Sweep: slowSweep, Check: checkSlow},
 	}
 }
